@@ -1502,6 +1502,35 @@ class _InlineNewHelpers(_InlineMethods):
                     if got is not None:
                         out += got
                         continue
+            # `return all(C(x) for x in helper(...))` / `any(...)` over a new generator helper is the loop it abbreviates
+            if isinstance(st, ast.Return) and isinstance(st.value, ast.Call) and isinstance(st.value.func, ast.Name) and st.value.func.id in ('all', 'any') and \
+                    len(st.value.args) == 1 and not st.value.keywords and isinstance(st.value.args[0], ast.GeneratorExp) and len(st.value.args[0].generators) == 1:
+                gen = st.value.args[0]
+                comp = gen.generators[0]
+                if isinstance(comp.iter, ast.Call) and not comp.is_async and isinstance(comp.target, (ast.Name, ast.Tuple)):
+                    r = self._callee(comp.iter, host)
+                    host_names_now = {x.id for x in ast.walk(host) if isinstance(x, ast.Name)}
+                    tn = {x.id for x in ast.walk(comp.target) if isinstance(x, ast.Name)}
+                    gen_names = {x.id for x in ast.walk(gen) if isinstance(x, ast.Name)}
+                    if r is not None and self._eligible(host, r[0], generator=True) and all(sum(1 for x in ast.walk(host) if isinstance(x, ast.Name) and x.id == t_) ==
+                                                                                          sum(1 for x in ast.walk(gen) if isinstance(x, ast.Name) and x.id == t_) for t_ in tn):
+                        is_all = st.value.func.id == 'all'
+                        test = gen.elt
+                        for c_ in reversed(comp.ifs):
+                            pass
+                        cond = ast.copy_location(ast.UnaryOp(op=ast.Not(), operand=test), test) if is_all else test
+                        inner = ast.copy_location(ast.If(test=cond, body=[ast.copy_location(ast.Return(value=ast.copy_location(ast.Constant(value=not is_all), st)), st)], orelse=[]), st)
+                        body_ = [inner]
+                        for c_ in reversed(comp.ifs):
+                            body_ = [ast.copy_location(ast.If(test=c_, body=body_, orelse=[]), st)]
+                        loop = ast.copy_location(ast.For(target=comp.target, iter=comp.iter, body=body_, orelse=[], type_comment=None), st)
+                        for y in ast.walk(loop.target):
+                            if isinstance(y, ast.Name):
+                                y.ctx = ast.Store()
+                        tail_ = ast.copy_location(ast.Return(value=ast.copy_location(ast.Constant(value=is_all), st)), st)
+                        ast.fix_missing_locations(loop)
+                        out += self._block([loop, tail_], host, methods)
+                        continue
             # `with helper(...) [as v]: BODY` with a new @contextmanager helper: the helper's statements with `v = <yielded value>; BODY` at its yield
             if isinstance(st, ast.With) and len(st.items) == 1 and isinstance(st.items[0].context_expr, ast.Call) and \
                     (st.items[0].optional_vars is None or isinstance(st.items[0].optional_vars, ast.Name)):
